@@ -126,4 +126,5 @@ func runC12(r *Run, rng *Rng, thorough bool) {
 		}
 	})
 	extJSON(r, rng, map[bool]int{false: 400, true: 10000}[thorough])
+	decodedThenChanged(r, rng, map[bool]int{false: 150, true: 4000}[thorough])
 }
